@@ -1,5 +1,2 @@
-import GfsModel.Basic
-import GfsModel.Ranges
-import GfsModel.FrameSet
-import GfsModel.Proto
-import GfsModel.Ops
+import GfsModel.OpsAll
+import GfsModel.SeqOps
